@@ -19,7 +19,13 @@ import (
 
 type Rng struct{ s uint64 }
 
-func NewRng(seed uint64) *Rng { return &Rng{s: seed*0x9E3779B97F4A7C15 + 0x1234567} }
+func NewRng(seed uint64) *Rng {
+	// scramble the seed so that consecutive seeds give unrelated streams
+	z := seed + 0x9E3779B97F4A7C15
+	z = (z ^ (z >> 30)) * 0xBF58476D1CE4E5B9
+	z = (z ^ (z >> 27)) * 0x94D049BB133111EB
+	return &Rng{s: z ^ (z >> 31)}
+}
 func (r *Rng) Next() uint64 {
 	r.s += 0x9E3779B97F4A7C15
 	z := r.s
@@ -146,6 +152,7 @@ type Report struct {
 	DiffCount          int            `json:"diff_count"`
 	OracleFailures     []OracleFailure `json:"oracle_failures"`
 	OracleFailCount    int            `json:"oracle_fail_count"`
+	OracleBySig        map[string]int `json:"oracle_by_signature"`
 	Broken             []string       `json:"broken"` // machinery problems (CHECK-BROKEN)
 	Exhaustive         bool           `json:"exhaustive"`
 
@@ -193,7 +200,13 @@ func (r *Report) AddOracle(f OracleFailure) {
 	r.mu.Lock()
 	defer r.mu.Unlock()
 	r.OracleFailCount++
-	if len(r.OracleFailures) < 200 {
+	key := f.Property + "|" + f.Signature
+	if r.OracleBySig == nil {
+		r.OracleBySig = map[string]int{}
+	}
+	r.OracleBySig[key]++
+	// keep every class visible: at most 25 stored per (property, signature)
+	if r.OracleBySig[key] <= 25 {
 		r.OracleFailures = append(r.OracleFailures, f)
 	}
 }
